@@ -199,6 +199,12 @@ def work_generated(ctx, seed):
     for nadd in (1, rng.randint(2, 4)):
         for steep in (False, True):
             check_aug(ctx, b, nadd, steep, 'gen:%d' % seed)
+    # calendarisation of generated dictionaries (single-primitive momenta, fused shells, several elements incl. H / He)
+    b2 = gen.gen_basis(rng, nel=rng.randint(1, 3), ecp_prob=0.0, ecp_only_prob=0.0, allow_fused=False)
+    if rng.random() < 0.5:
+        src = next(iter(b2['elements'].values()))
+        b2['elements'][rng.choice(['1', '2'])] = copy.deepcopy(src)
+    chain_ok(ctx, 'gen', str(seed), b2)
 
 
 def run(ctx):
@@ -216,6 +222,7 @@ def run(ctx):
     else:
         names = [n for n in store.sample_names(ctx.rng, 60, md) if n in orb][:24]
         names += ctx.rng.sample([k for k in orb if k.startswith('aug-')], 8)
+        names += [k for k in ('aug-cc-pvtz-j', 'aug-cc-pvdz', 'aug-cc-pwcvtz-pp') if k in orb]   # single-primitive top momenta
         pairs = [(n, md[n]['latest_version']) for n in names]
     store.parallel(ctx, work_store, pairs)
     store.parallel(ctx, work_generated, [ctx.seed * 173 + i for i in range(ctx.budget(80, 4000))])
@@ -225,5 +232,7 @@ def replay(ctx, rec):
     r = rec.get('replay', rec)
     if r.get('input'):
         check_aug(ctx, r['input'], r['nadd'], r['steep'], 'replay')
+    elif r.get('name') == 'gen':
+        work_generated(ctx, int(r['version']))
     elif r.get('name') in store.metadata():
         work_store(ctx, (r['name'], r.get('version') or store.metadata()[r['name']]['latest_version']))
